@@ -131,7 +131,10 @@ def run(ctx):
                                 invs=['NoSelfPairs', 'AllFoldsUsed', 'EqualWeights', 'CvMatchesLeaveOneOut']), 0),
             ('cv_cat8', dict(mode='cv', nobs=8, nch=2, nlab=2, nfold=2, datasrc='cat', dataids=(1, 4), methods=BOTH,
                              rms=(False, True), precids=(0, 3), fprecids=(0, 2), priorids=(2,),
-                             foldsrcs=('explicit', 'default'), emitmod=3, invs=NOCOEF), 30),
+                             foldsrcs=('explicit',), emitmod=3, invs=NOCOEF), 30),
+            # default folds with 4 repetitions of 2 conditions (all 70 row orders)
+            ('cv_def8', dict(mode='cv', nobs=8, nch=2, nlab=2, nfold=4, datasrc='cat', dataids=(1, 2, 3, 4), methods=BOTH,
+                             rms=(False, True), precids=(0, 3), priorids=(2,), foldsrcs=('default',), invs=NOCOEF), 10),
             ('cv_cat6_3ch', dict(mode='cv', nobs=6, nch=3, nlab=3, nfold=3, datasrc='cat', dataids=(3, 4), methods=BOTH,
                                  rms=(False, True), precids=(0, 2), fprecids=(0, 2), priorids=(3,),
                                  foldsrcs=('explicit',), emitmod=8, invs=NOCOEF), 30),
@@ -167,9 +170,11 @@ def run(ctx):
                  ('cv_coef4', dict(mode='cv', nobs=4, nch=1, nlab=2, nfold=3, datasrc='cat', dataids=(5,),
                                    methods=('crossnobis',), foldsrcs=('explicit', 'default'), emitcoef=True), 1)]
     if thorough:
-        coef_runs.append(('cv_coef8', dict(mode='cv', nobs=8, nch=1, nlab=2, nfold=4, datasrc='cat', dataids=(5,),
-                                           methods=('crossnobis',), foldsrcs=('explicit', 'default'), emitcoef=True,
+        coef_runs.append(('cv_coef8', dict(mode='cv', nobs=8, nch=1, nlab=2, nfold=2, datasrc='cat', dataids=(5,),
+                                           methods=('crossnobis',), foldsrcs=('explicit',), emitcoef=True,
                                            emitmod=3), 1))
+        coef_runs.append(('cv_coef8d', dict(mode='cv', nobs=8, nch=1, nlab=2, nfold=4, datasrc='cat', dataids=(5,),
+                                            methods=('crossnobis',), foldsrcs=('default',), emitcoef=True), 1))
     nd = 0
     for k, (name, kw, every) in enumerate(coef_runs):
         r = ctx.tlc('MC_CalcRdm', C.cfg(**kw), name=name, workers=W, timeout=1700)
